@@ -275,6 +275,8 @@ def impl_func(case):
             out['circuit'] = ct.dump_circuit(obj)
         out['answers'][name] = [run_query(obj, q) for q in qs]
         out['alias'][name] = protocol_aliases(obj, n, table)
+    if len(_IMPL_CACHE) > 64:
+        _IMPL_CACHE.clear()
     _IMPL_CACHE[key] = out
     return out
 
